@@ -244,3 +244,10 @@ PROPS["C15"].update(dict(level="proof", modules=["EdVerif.Props.C15", "EdVerif.P
     text=PROOF_TEXT + "Proved on the API model: an uninitialized Point in any input position (each element of points included) panics with the store unchanged, mismatched lengths panic (checked first), "
          "a zero-value receiver alone never panics, Set is exempt, and these are the only panics; re-proved each run on the regenerated SSA: the checkInitialized call / length test dominates every use of the Point parameters.",
     technique="Lean 4 model theorem + Lean-checked SSA dominance predicate on regenerated code + correspondence"))
+
+# the SSA stratum is executed against the real code (ssarun) for every property whose theorems are about the SSA data
+for _pid in ("C03", "C11", "C14", "C15", "C18", "C19"):
+    PROPS[_pid]["parts"] = list(PROPS[_pid].get("parts", [])) + ["ssa_exec"]
+    PROPS[_pid]["trusted_extra"] = list(PROPS[_pid].get("trusted_extra", [])) + [
+        "the SSA semantics EdVerif/Ssa/Sem.lean (meaning of the 23 instruction kinds and of the modelled externals) is validated on every run by executing "
+        "the regenerated SSA with it (ssarun) against the real code on generated operation sequences, limb-exact"]
